@@ -16,9 +16,16 @@ theorem dedup_nodup {α : Type} [DecidableEq α] : ∀ l : List α, (dedup l).No
     · exact dedup_nodup l
     · next h => exact List.nodup_cons.mpr ⟨h, dedup_nodup l⟩
 
+theorem nodup_reverse' {α : Type} {l : List α} (h : l.Nodup) : l.reverse.Nodup :=
+  List.pairwise_reverse.mpr (h.imp (fun hne e => hne e.symm))
+
+theorem nodup_map_inj {α β : Type} (f : α → β) (hf : ∀ a b, f a = f b → a = b) {l : List α} (h : l.Nodup) :
+    (l.map f).Nodup :=
+  List.Pairwise.map f (fun a b hne e => hne (hf a b e)) h
+
 theorem uniq_nodup {α : Type} [DecidableEq α] (l : List α) : (uniq l).Nodup := by
   unfold uniq
-  exact List.nodup_reverse.mpr (dedup_nodup _)
+  exact nodup_reverse' (dedup_nodup _)
 
 theorem chain_ne_nil : ∀ (p : Path) (x : Path), x ∈ chain p → x ≠ []
   | [], x, h => by simp [chain] at h
@@ -36,13 +43,13 @@ theorem chain_nodup : ∀ p : Path, (chain p).Nodup
       obtain ⟨y, hy, he⟩ := h
       have : y = [] := by simpa using he
       exact chain_ne_nil p y hy this
-    · exact (chain_nodup p).map (fun a b h => by simpa using h)
+    · exact nodup_map_inj _ (fun a b h => by simpa using h) (chain_nodup p)
 
 theorem chainR_nodup : ∀ p : Path, (chainR p).Nodup
   | [] => by simp [chainR]
   | l :: p => by
     simp only [chainR]
-    exact (chain_nodup p).map (fun a b h => by simpa using h)
+    exact nodup_map_inj _ (fun a b h => by simpa using h) (chain_nodup p)
 
 /-! ### the invariant -/
 
@@ -60,11 +67,20 @@ theorem MInv_of_sameGraph {s s' : MState} (h : SameGraph s s') (hi : MInv s) : M
   exact ⟨by rw [h1]; exact hi.inv, by rw [h1, h2]; exact hi.link, by rw [h2]; exact hi.ids,
          by rw [h1]; exact hi.rows1, by rw [h1]; exact hi.rows2, by rw [h1]; exact hi.rows3, by rw [h1]; exact hi.rows4⟩
 
-theorem inv_empty : Inv (Mgr.empty : Mgr Path Path) := by
-  refine ⟨by intro t h; cases h, ?_, ?_, ?_, ?_, ?_, ?_, ?_, ?_⟩
-  all_goals first
-    | (intro a; exact ⟨by simp [Mgr.empty, DD.get, RC.keys], by intro p hp; simp [Mgr.empty, DD.get] at hp⟩)
-    | (intro a b; simp [Mgr.empty, DD.cnt2, DD.get, RC.cnt, sRdeps, sDep, sTar, sRt, look])
+theorem wf_nil {ρ κ : Type} [DecidableEq ρ] [DecidableEq κ] : DD.WF ([] : DD ρ κ) := by
+  intro a
+  exact ⟨by simp [DD.get, RC.keys], by intro p hp; simp [DD.get] at hp⟩
+
+theorem inv_empty : Inv (Mgr.empty : Mgr Path Path) where
+  wfT := by intro t h; cases h
+  wf1 := wf_nil
+  wf2 := wf_nil
+  wf3 := wf_nil
+  wf4 := wf_nil
+  rdeps := by intro a b; simp [Mgr.empty, DD.cnt2, DD.get, RC.cnt, sRdeps]
+  dept := by intro a b; simp [Mgr.empty, DD.cnt2, DD.get, RC.cnt, sDep, look]
+  tart := by intro a b; simp [Mgr.empty, DD.cnt2, DD.get, RC.cnt, sTar, look]
+  rt := by intro a b; simp [Mgr.empty, DD.cnt2, DD.get, RC.cnt, sRt, look]
 
 theorem MInv.init : MInv MState.init :=
   ⟨inv_empty, rfl, by simp [MState.init], by simp [MState.init, Mgr.empty, DD.rows], by simp [MState.init, Mgr.empty, DD.rows],
@@ -125,37 +141,468 @@ theorem filter_fresh (ts : List (Task Path Path)) (id : Path) (h : look ts id = 
   have := List.find?_eq_none.mp h x hx
   simpa using this
 
-/-- **register (fresh id).** -/
-theorem register_MInv (s : MState) (t : MTask) (hi : MInv s) (hf : s.frozen = false)
-    (hfresh : lookDef s.defs t.id = none) (hd : t.deps.Nodup) (ht : t.tars.Nodup) :
-    MInv (register s t).1 ∧ (register s t).2 = none := by
+/-- what `register` does to the task table and the indices when the id is fresh and the tree not frozen -/
+theorem register_fresh_eq (s : MState) (t : MTask) (hi : MInv s) (hf : s.frozen = false)
+    (hfresh : lookDef s.defs t.id = none) :
+    (register s t).2 = none ∧ (register s t).1.defs = s.defs ++ [t] ∧
+    (register s t).1.idx = register' s.idx t.toIdx ∧ (register s t).1.frozen = false := by
   have hlook : look s.idx.tasks t.id = none := by
     rw [hi.link, look_map_toIdx, hfresh]; rfl
   have hfilt := filter_fresh s.idx.tasks t.id hlook
   have hidx : ({ s.idx with tasks := s.idx.tasks.filter (fun x => !decide (x.id = t.id)) } : Mgr Path Path) = s.idx := by
     cases hm : s.idx; simp only [hm] at hfilt ⊢; simp [hfilt]
   unfold register
-  simp only [hf, Bool.false_eq_true, if_false, hfresh]
-  refine ⟨?_, rfl⟩
-  have hid : (MTask.toIdx t).id = t.id := rfl
-  have hinv : Inv (register' s.idx t.toIdx) := register_inv s.idx t.toIdx hi.inv (by rw [hid]; exact hlook) hd ht
-  refine ⟨?_, ?_, ?_, ?_, ?_, ?_, ?_⟩
-  · simp only [hidx]; exact hinv
-  · simp only [hidx, register', hi.link, List.map_append, List.map_cons, List.map_nil]
-  · simp only [List.map_append, List.map_cons, List.map_nil]
+  simp only [hf, Bool.false_eq_true, if_false, hfresh, hidx]
+  simp
+
+/-- **register (fresh id).** -/
+theorem register_MInv (s : MState) (t : MTask) (hi : MInv s) (hf : s.frozen = false)
+    (hfresh : lookDef s.defs t.id = none) (hd : t.deps.Nodup) (ht : t.tars.Nodup) :
+    MInv (register s t).1 := by
+  obtain ⟨_, hdefs, hidx, _⟩ := register_fresh_eq s t hi hf hfresh
+  have hlook : look s.idx.tasks t.id = none := by
+    rw [hi.link, look_map_toIdx, hfresh]; rfl
+  have hinv : Inv (register' s.idx t.toIdx) := register_inv s.idx t.toIdx hi.inv hlook hd ht
+  refine ⟨by rw [hidx]; exact hinv, ?_, ?_, ?_, ?_, ?_, ?_⟩
+  · rw [hidx, hdefs]
+    simp only [register', hi.link, List.map_append, List.map_cons, List.map_nil]
+  · rw [hdefs]
+    simp only [List.map_append, List.map_cons, List.map_nil]
     refine List.nodup_append.mpr ⟨hi.ids, by simp, ?_⟩
     intro a ha b hb
     simp only [List.mem_singleton] at hb
     subst hb
     intro e; subst e
-    -- a is the id of an existing definition: contradiction with freshness
     obtain ⟨u, hu, hue⟩ := List.mem_map.mp ha
     unfold lookDef at hfresh
     have := List.find?_eq_none.mp hfresh u hu
     simp [hue] at this
-  · simp only [hidx, register']; exact appAll_rows _ hi.rows1 _
-  · simp only [hidx, register']; exact appAll_rows _ (appAll_rows _ hi.rows2 _) _
-  · simp only [hidx, register']; exact appAll_rows _ hi.rows3 _
-  · simp only [hidx, register']; exact appAll_rows _ hi.rows4 _
+  · rw [hidx]; simp only [register']; exact appAll_rows _ hi.rows1 _
+  · rw [hidx]; simp only [register']; exact appAll_rows _ (appAll_rows _ hi.rows2 _) _
+  · rw [hidx]; simp only [register']; exact appAll_rows _ hi.rows3 _
+  · rw [hidx]; simp only [register']; exact appAll_rows _ hi.rows4 _
+
+/-- what `unregister` does when the id is registered and the tree not frozen -/
+theorem unregister_present_eq (s : MState) (id : Path) (t : MTask) (hf : s.frozen = false)
+    (hl : lookDef s.defs id = some t) :
+    (unregister s id).2 = none ∧ (unregister s id).1.defs = s.defs.filter (fun x => !decide (x.id = id)) ∧
+    (unregister s id).1.idx = unregister' s.idx t.toIdx ∧ (unregister s id).1.frozen = false ∧
+    (unregister s id).1.store = s.store := by
+  unfold unregister
+  simp [hf, hl]
+
+theorem lookDef_id {defs : List MTask} {id : Path} {t : MTask} (h : lookDef defs id = some t) : t.id = id := by
+  unfold lookDef at h
+  have := List.find?_some h
+  simpa using this
+
+theorem filter_map_toIdx (defs : List MTask) (id : Path) :
+    (defs.map MTask.toIdx).filter (fun x => !decide (x.id = id)) = (defs.filter (fun x => !decide (x.id = id))).map MTask.toIdx := by
+  induction defs with
+  | nil => rfl
+  | cons t rest ih =>
+    simp only [List.map_cons, List.filter_cons]
+    by_cases h : t.id = id
+    · simp [MTask.toIdx, h, ih]
+    · simp only [MTask.toIdx, h, decide_false, Bool.not_false, if_true, List.map_cons] at ih ⊢
+      rw [ih]
+
+/-- **unregister (registered id).** -/
+theorem unregister_MInv (s : MState) (id : Path) (t : MTask) (hi : MInv s) (hf : s.frozen = false)
+    (hl : lookDef s.defs id = some t) : MInv (unregister s id).1 := by
+  obtain ⟨_, hdefs, hidx, _, _⟩ := unregister_present_eq s id t hf hl
+  have hid : t.id = id := lookDef_id hl
+  have hlook : look s.idx.tasks t.toIdx.id = some t.toIdx := by
+    show look s.idx.tasks t.id = _
+    rw [hi.link, look_map_toIdx, hid, hl]; rfl
+  have hids : (s.idx.tasks.map (·.id)).Nodup := by
+    rw [hi.link, List.map_map]
+    exact hi.ids
+  have hinv : Inv (unregister' s.idx t.toIdx) := unregister_inv s.idx t.toIdx hi.inv hids hi.rows2 hlook
+  refine ⟨by rw [hidx]; exact hinv, ?_, ?_, ?_, ?_, ?_, ?_⟩
+  · rw [hidx, hdefs]
+    simp only [unregister', hi.link]
+    show (s.defs.map MTask.toIdx).filter (fun x => !decide (x.id = t.id)) = _
+    rw [hid, filter_map_toIdx]
+  · rw [hdefs]
+    have : (s.defs.filter (fun x => !decide (x.id = id))).map (·.id) = (s.defs.map (·.id)).filter (fun a => !decide (a = id)) := by
+      induction s.defs with
+      | nil => rfl
+      | cons u rest ih =>
+        simp only [List.filter_cons, List.map_cons]
+        by_cases h : u.id = id <;> simp [h, ih]
+    rw [this]
+    exact hi.ids.sublist List.filter_sublist
+  · rw [hidx]; simp only [unregister']; exact rmAll_rows _ hi.rows1 _
+  · rw [hidx]; simp only [unregister']; exact del_rows _ (rmAll_rows _ hi.rows2 _) _
+  · rw [hidx]; simp only [unregister']; exact rmAll_rows _ hi.rows3 _
+  · rw [hidx]; simp only [unregister']; exact rmAll_rows _ hi.rows4 _
+
+/-- after `unregister id` the id is free again -/
+theorem lookDef_after_unregister (s : MState) (id : Path) (t : MTask) (hf : s.frozen = false)
+    (hl : lookDef s.defs id = some t) : lookDef (unregister s id).1.defs id = none := by
+  obtain ⟨_, hdefs, _, _, _⟩ := unregister_present_eq s id t hf hl
+  rw [hdefs]
+  unfold lookDef
+  rw [List.find?_eq_none]
+  intro x hx
+  have := (List.mem_filter.mp hx).2
+  simpa using this
+
+theorem mkExprTask_nodup (p : Path) (e : Expr) : (mkExprTask p e).deps.Nodup ∧ (mkExprTask p e).tars.Nodup :=
+  ⟨uniq_nodup _, chainR_nodup p⟩
+
+/-- **set_value(ref, expr)** keeps the invariant, whatever happens while the value propagates -/
+theorem setExpr_MInv (sched : Sched) (s : MState) (p : Path) (e : Expr) (hi : MInv s) :
+    MInv (setExpr sched s p e).1 := by
+  by_cases hf : s.frozen = true
+  · rw [setExpr_frozen sched s p e hf]; exact hi
+  · have hf' : s.frozen = false := by simpa using hf
+    -- the graph after the call is `defPart`, and `defPart` is unregister-then-register
+    refine MInv_of_sameGraph (setExpr_graph sched s p e hf') ?_
+    unfold defPart
+    cases hl : lookDef s.defs p with
+    | none =>
+      simp only
+      exact register_MInv s (mkExprTask p e) hi hf' (by simpa [mkExprTask] using hl)
+        (mkExprTask_nodup p e).1 (mkExprTask_nodup p e).2
+    | some t =>
+      simp only
+      have h1 := unregister_MInv s p t hi hf' hl
+      obtain ⟨_, _, _, hfz, _⟩ := unregister_present_eq s p t hf' hl
+      exact register_MInv _ (mkExprTask p e) h1 hfz
+        (by simpa [mkExprTask] using lookDef_after_unregister s p t hf' hl)
+        (mkExprTask_nodup p e).1 (mkExprTask_nodup p e).2
+
+/-- **set_value(ref, value)** -/
+theorem setValue_MInv (sched : Sched) (s : MState) (p : Path) (v : Val) (hi : MInv s) :
+    MInv (setValue sched s p v).1 := by
+  cases hl : lookDef s.defs p with
+  | none => exact MInv_of_sameGraph (setValue_plain_graph sched s p v hl) hi
+  | some t =>
+    by_cases hf : s.frozen = true
+    · rw [setValue_frozen_defined sched s p v t hf hl]; exact hi
+    · have hf' : s.frozen = false := by simpa using hf
+      unfold setValue
+      simp only [hl]
+      have h1 := unregister_MInv s p t hi hf' hl
+      obtain ⟨hnone, _, _, _, _⟩ := unregister_present_eq s p t hf' hl
+      generalize unregister s p = r at h1 hnone
+      obtain ⟨s0, x0⟩ := r
+      simp only at hnone h1
+      subst hnone
+      exact MInv_of_sameGraph (writeAndRun_graph sched s0 p v) h1
+
+/-! ### maintenance operations -/
+
+theorem get_cleanupDD {ρ κ : Type} [DecidableEq ρ] [DecidableEq κ] (d : DD ρ κ) (hnd : (DD.rows d).Nodup) (a : ρ) :
+    DD.get (cleanupDD d) a = DD.get d a := by
+  induction d with
+  | nil => rfl
+  | cons p r ih =>
+    obtain ⟨a', m⟩ := p
+    have h' : a' ∉ DD.rows r ∧ (DD.rows r).Nodup := by simpa [DD.rows] using hnd
+    simp only [cleanupDD, List.filter_cons]
+    by_cases hm : m.isEmpty = true
+    · -- the row is dropped: it was empty, and no later row has the same key
+      simp only [hm, Bool.not_true, Bool.false_eq_true, if_false]
+      have ih' := ih h'.2
+      simp only [cleanupDD] at ih'
+      rw [ih']
+      by_cases ha : a' = a
+      · subst ha
+        simp only [DD.get, if_true]
+        rw [DD.get_eq_nil_of_not_mem r a' h'.1]
+        cases m with
+        | nil => rfl
+        | cons _ _ => simp at hm
+      · simp [DD.get, ha]
+    · simp only [hm, Bool.not_false, if_true]
+      by_cases ha : a' = a
+      · simp [DD.get, ha]
+      · have ih' := ih h'.2
+        simp only [cleanupDD] at ih'
+        simp [DD.get, ha, ih']
+
+theorem cleanupDD_rows {ρ κ : Type} [DecidableEq ρ] [DecidableEq κ] (d : DD ρ κ) (hnd : (DD.rows d).Nodup) :
+    (DD.rows (cleanupDD d)).Nodup := by
+  unfold cleanupDD DD.rows at *
+  exact hnd.sublist (List.Sublist.map _ List.filter_sublist)
+
+theorem cleanupDD_WF {ρ κ : Type} [DecidableEq ρ] [DecidableEq κ] (d : DD ρ κ) (hnd : (DD.rows d).Nodup) (h : DD.WF d) :
+    DD.WF (cleanupDD d) := by
+  intro a; rw [get_cleanupDD d hnd a]; exact h a
+
+/-- **cleanup()** keeps the invariant and the supports -/
+theorem cleanup_MInv (s : MState) (hi : MInv s) : MInv (cleanup s) := by
+  have g1 := get_cleanupDD s.idx.rdeps hi.rows1
+  have g2 := get_cleanupDD s.idx.rtasks hi.rows2
+  have g3 := get_cleanupDD s.idx.deptasks hi.rows3
+  have g4 := get_cleanupDD s.idx.tartasks hi.rows4
+  refine ⟨?_, hi.link, hi.ids, cleanupDD_rows _ hi.rows1, cleanupDD_rows _ hi.rows2, cleanupDD_rows _ hi.rows3, cleanupDD_rows _ hi.rows4⟩
+  exact {
+    wfT := hi.inv.wfT
+    wf1 := cleanupDD_WF _ hi.rows1 hi.inv.wf1
+    wf2 := cleanupDD_WF _ hi.rows2 hi.inv.wf2
+    wf3 := cleanupDD_WF _ hi.rows3 hi.inv.wf3
+    wf4 := cleanupDD_WF _ hi.rows4 hi.inv.wf4
+    rdeps := by intro d r; show RC.cnt (DD.get (cleanupDD s.idx.rdeps) d) r = _; rw [g1]; exact hi.inv.rdeps d r
+    dept := by intro d k; show RC.cnt (DD.get (cleanupDD s.idx.deptasks) d) k = _; rw [g3]; exact hi.inv.dept d k
+    tart := by intro r k; show RC.cnt (DD.get (cleanupDD s.idx.tartasks) r) k = _; rw [g4]; exact hi.inv.tart r k
+    rt := by intro u k; show RC.cnt (DD.get (cleanupDD s.idx.rtasks) u) k = _; rw [g2]; exact hi.inv.rt u k }
+
+/-- **verify()** only cleans up -/
+theorem verify_MInv (s : MState) (hi : MInv s) : MInv (verify s).1 := by
+  unfold verify
+  simp only
+  split <;> exact cleanup_MInv s hi
+
+/-- the indices of a state, packaged without the store -/
+structure GInv (m : Mgr Path Path) (defs : List MTask) : Prop where
+  inv : Inv m
+  link : m.tasks = defs.map MTask.toIdx
+  rows1 : (DD.rows m.rdeps).Nodup
+  rows2 : (DD.rows m.rtasks).Nodup
+  rows3 : (DD.rows m.deptasks).Nodup
+  rows4 : (DD.rows m.tartasks).Nodup
+
+theorem regen_fold (rest : List MTask) : ∀ (pre : List MTask) (m : Mgr Path Path), GInv m pre →
+    ((pre ++ rest).map (·.id)).Nodup → (∀ t ∈ rest, t.deps.Nodup ∧ t.tars.Nodup) →
+    GInv (rest.foldl (fun m t => register' m t.toIdx) m) (pre ++ rest) := by
+  induction rest with
+  | nil => intro pre m h _ _; simpa using h
+  | cons t rest ih =>
+    intro pre m h hids hnd
+    simp only [List.foldl_cons]
+    have hfresh : look m.tasks t.toIdx.id = none := by
+      show look m.tasks t.id = none
+      rw [h.link, look_map_toIdx]
+      have : lookDef pre t.id = none := by
+        unfold lookDef
+        rw [List.find?_eq_none]
+        intro x hx
+        simp only [decide_eq_true_eq]
+        intro e
+        have hn := hids
+        rw [List.map_append, List.nodup_append] at hn
+        exact hn.2.2 x.id (List.mem_map.mpr ⟨x, hx, rfl⟩) t.id (by simp) e
+      rw [this]; rfl
+    have hinv := register_inv m t.toIdx h.inv hfresh (hnd t (by simp)).1 (hnd t (by simp)).2
+    have step : GInv (register' m t.toIdx) (pre ++ [t]) :=
+      ⟨hinv, by simp [register', h.link], by simp only [register']; exact appAll_rows _ h.rows1 _,
+       by simp only [register']; exact appAll_rows _ (appAll_rows _ h.rows2 _) _,
+       by simp only [register']; exact appAll_rows _ h.rows3 _, by simp only [register']; exact appAll_rows _ h.rows4 _⟩
+    have := ih (pre ++ [t]) _ step (by simpa [List.append_assoc] using hids) (fun u hu => hnd u (List.mem_cons_of_mem _ hu))
+    simpa [List.append_assoc] using this
+
+/-- **refresh()**: regenerating the indices from the task table gives the invariant again -/
+theorem refresh_MInv (s : MState) (hi : MInv s) : MInv (refresh s).1 := by
+  unfold refresh
+  by_cases hf : s.frozen = true
+  · simp only [hf, if_true]; exact hi
+  · simp only [hf, Bool.false_eq_true, if_false]
+    have hnd : ∀ t ∈ s.defs, t.deps.Nodup ∧ t.tars.Nodup := by
+      intro t ht
+      have := hi.inv.wfT t.toIdx (by rw [hi.link]; exact List.mem_map.mpr ⟨t, ht, rfl⟩)
+      exact this
+    have g := regen_fold s.defs [] Mgr.empty
+      ⟨inv_empty, rfl, by simp [Mgr.empty, DD.rows], by simp [Mgr.empty, DD.rows], by simp [Mgr.empty, DD.rows], by simp [Mgr.empty, DD.rows]⟩
+      (by simpa using hi.ids) hnd
+    simp only [List.nil_append] at g
+    apply cleanup_MInv
+    exact ⟨g.inv, g.link, hi.ids, g.rows1, g.rows2, g.rows3, g.rows4⟩
+
+/-- **in-place update** -/
+theorem inplace_MInv (sched : Sched) (s : MState) (op : String) (p : Path) (operand : Expr) (hi : MInv s) :
+    MInv (inplace sched s op p operand).1 := by
+  unfold inplace
+  split
+  · exact setExpr_MInv sched s p _ hi
+  · split
+    · exact hi
+    · split
+      · split
+        · exact hi
+        · exact setValue_MInv sched s p _ hi
+      all_goals exact setExpr_MInv sched s p _ hi
+
+/-- **load(dump, overwrite)** -/
+theorem load_MInv (ow : Bool) (pairs : List (Path × Expr)) : ∀ s : MState, MInv s → MInv (load s ow pairs).1 := by
+  induction pairs with
+  | nil => intro s hi; exact hi
+  | cons pe rest ih =>
+    intro s hi
+    obtain ⟨p, e⟩ := pe
+    simp only [load]
+    by_cases hf : s.frozen = true
+    · -- every branch either rejects or skips
+      cases hl : lookDef s.defs p with
+      | some t =>
+        simp only
+        cases ow with
+        | true => simp only [if_true, unregister_frozen s p hf]; exact hi
+        | false => simp only [Bool.false_eq_true, if_false]; exact ih s hi
+      | none => simp only [register_frozen s _ hf]; exact hi
+    · have hf' : s.frozen = false := by simpa using hf
+      cases hl : lookDef s.defs p with
+      | some t =>
+        simp only
+        cases ow with
+        | false => simp only [Bool.false_eq_true, if_false]; exact ih s hi
+        | true =>
+          simp only [if_true]
+          have h1 := unregister_MInv s p t hi hf' hl
+          obtain ⟨hnone, _, _, hfz, _⟩ := unregister_present_eq s p t hf' hl
+          have hfree := lookDef_after_unregister s p t hf' hl
+          generalize unregister s p = r at h1 hnone hfz hfree
+          obtain ⟨s1, x1⟩ := r
+          simp only at hnone h1 hfz hfree
+          subst hnone
+          simp only
+          have h2 := register_MInv s1 (mkExprTask p e) h1 hfz (by simpa [mkExprTask] using hfree)
+            (mkExprTask_nodup p e).1 (mkExprTask_nodup p e).2
+          obtain ⟨hn2, _, _, _⟩ := register_fresh_eq s1 (mkExprTask p e) h1 hfz (by simpa [mkExprTask] using hfree)
+          generalize register s1 (mkExprTask p e) = r2 at h2 hn2
+          obtain ⟨s2, x2⟩ := r2
+          simp only at hn2 h2
+          subst hn2
+          exact ih s2 h2
+      | none =>
+        simp only
+        have h2 := register_MInv s (mkExprTask p e) hi hf' (by simpa [mkExprTask] using hl)
+          (mkExprTask_nodup p e).1 (mkExprTask_nodup p e).2
+        obtain ⟨hn2, _, _, _⟩ := register_fresh_eq s (mkExprTask p e) hi hf' (by simpa [mkExprTask] using hl)
+        generalize register s (mkExprTask p e) = r2 at h2 hn2
+        obtain ⟨s2, x2⟩ := r2
+        simp only at hn2 h2
+        subst hn2
+        exact ih s2 h2
+
+/-- a user-supplied task (function / linear knob) is well formed for registration -/
+def WFCall (s : MState) : Call → Prop
+  | .register t => lookDef s.defs t.id = none ∧ t.deps.Nodup ∧ t.tars.Nodup
+  | _ => True
+
+/-- **C03, one call.**  Every API call keeps the indices a function of the surviving tasks. -/
+theorem apply_MInv (sched : Sched) (s : MState) (c : Call) (hi : MInv s) (hw : WFCall s c) :
+    MInv (apply sched s c).1 := by
+  cases c with
+  | setValue p v => exact setValue_MInv sched s p v hi
+  | setExpr p e => exact setExpr_MInv sched s p e hi
+  | inplace op p operand => exact inplace_MInv sched s op p operand hi
+  | register t =>
+    simp only [apply]
+    by_cases hf : s.frozen = true
+    · rw [register_frozen s t hf]; exact hi
+    · exact register_MInv s t hi (by simpa using hf) hw.1 hw.2.1 hw.2.2
+  | unregister id =>
+    simp only [apply]
+    by_cases hf : s.frozen = true
+    · rw [unregister_frozen s id hf]; exact hi
+    · cases hl : lookDef s.defs id with
+      | none => simp [unregister, hf, hl]; exact hi
+      | some t => exact unregister_MInv s id t hi (by simpa using hf) hl
+  | load ow pairs => exact load_MInv ow pairs s hi
+  | refresh => exact refresh_MInv s hi
+  | cleanup => exact cleanup_MInv s hi
+  | verify => exact verify_MInv s hi
+
+/-- all histories: calls are made one after the other, whatever their outcome -/
+def WFHist (sched : Sched) : MState → List Call → Prop
+  | _, [] => True
+  | s, c :: cs => WFCall s c ∧ WFHist sched (apply sched s c).1 cs
+
+theorem applyAll_MInv (sched : Sched) (cs : List Call) : ∀ s : MState, MInv s → WFHist sched s cs →
+    MInv (applyAll sched s cs) := by
+  induction cs with
+  | nil => intro s hi _; exact hi
+  | cons c cs ih =>
+    intro s hi hw
+    simp only [applyAll]
+    exact ih _ (apply_MInv sched s c hi hw.1) hw.2
+
+/-! ### the graph facts C02 needs, from the invariant -/
+
+theorem mem_dedup {α : Type} [DecidableEq α] : ∀ (l : List α) (x : α), x ∈ dedup l ↔ x ∈ l
+  | [], x => by simp [dedup]
+  | a :: l, x => by
+    simp only [dedup]
+    split
+    · next h =>
+      rw [mem_dedup l x]
+      constructor
+      · exact fun hx => List.mem_cons_of_mem _ hx
+      · intro hx
+        rcases List.mem_cons.mp hx with rfl | hx
+        · exact (mem_dedup l x).mp h
+        · exact hx
+    · simp [mem_dedup l x]
+
+theorem mem_uniq {α : Type} [DecidableEq α] (l : List α) (x : α) : x ∈ uniq l ↔ x ∈ l := by
+  unfold uniq
+  rw [List.mem_reverse, mem_dedup, List.mem_reverse]
+
+theorem look_some_mem_ids (defs : List MTask) (k : Path) (t : Task Path Path)
+    (h : look (defs.map MTask.toIdx) k = some t) : k ∈ defs.map (·.id) := by
+  have := look_mem h
+  obtain ⟨u, hu, rfl⟩ := List.mem_map.mp this.1
+  exact List.mem_map.mpr ⟨u, hu, this.2⟩
+
+/-- every successor in the ordering graph is a registered task -/
+theorem gOf_closed (s : MState) (hi : MInv s) (u w : Path) (hw : w ∈ gOf s.idx u) : w ∈ s.defs.map (·.id) := by
+  unfold gOf at hw
+  rw [RC.mem_keys_iff _ (hi.inv.wf2 u)] at hw
+  have h1 : DD.cnt2 s.idx.rtasks u w ≥ 1 := hw
+  rw [hi.inv.rt] at h1
+  unfold sRt at h1
+  rw [hi.link] at h1
+  cases h2 : look (s.defs.map MTask.toIdx) u with
+  | none => simp [h2] at h1
+  | some tu =>
+    cases h3 : look (s.defs.map MTask.toIdx) w with
+    | none => simp [h2, h3] at h1
+    | some tw => exact look_some_mem_ids s.defs w tw h3
+
+/-- every task in the start set is a registered task -/
+theorem startOf_sub (s : MState) (hi : MInv s) (startDeps : List Path) (k : Path)
+    (hk : k ∈ startOf s.idx startDeps) : k ∈ s.defs.map (·.id) := by
+  unfold startOf at hk
+  rw [mem_uniq] at hk
+  obtain ⟨d, _, hkd⟩ := List.mem_flatMap.mp hk
+  rw [RC.mem_keys_iff _ (hi.inv.wf3 d)] at hkd
+  have h1 : DD.cnt2 s.idx.deptasks d k ≥ 1 := hkd
+  rw [hi.inv.dept] at h1
+  unfold sDep at h1
+  rw [hi.link] at h1
+  cases h3 : look (s.defs.map MTask.toIdx) k with
+  | none => simp [h3] at h1
+  | some tk => exact look_some_mem_ids s.defs k tk h3
+
+theorem fuelOf_ge (s : MState) (hi : MInv s) : fuelOf s.idx ≥ (s.defs.map (·.id)).length := by
+  unfold fuelOf
+  rw [hi.link]
+  simp only [List.length_map]
+  omega
+
+/-- **C02 on the executable manager.**  For a state reachable through the API (`MInv`) and any assigned
+    location: the schedule `find_taskids` computes has no duplicates, contains exactly the tasks
+    reachable in the ordering graph from the tasks reading the location or a container enclosing it,
+    and lists a producer before each of its consumers — provided no cycle through two distinct tasks
+    is reachable from the start set. -/
+theorem findTaskids_spec (s : MState) (hi : MInv s) (startDeps : List Path)
+    (hac : ∀ a b, (∃ s0 ∈ startOf s.idx startDeps, Dfs3.Reach (gOf s.idx) s0 a) → a ≠ b →
+      Dfs3.Reach (gOf s.idx) a b → Dfs3.Reach (gOf s.idx) b a → False) :
+    (findTaskids s.idx startDeps).Nodup ∧
+    (∀ x, x ∈ findTaskids s.idx startDeps ↔ ∃ s0 ∈ startOf s.idx startDeps, Dfs3.Reach (gOf s.idx) s0 x) ∧
+    (∀ u w, u ∈ findTaskids s.idx startDeps → w ∈ gOf s.idx u → w ≠ u →
+      Dfs3.Before (findTaskids s.idx startDeps) u w) := by
+  have hfuel := fuelOf_ge s hi
+  have hstart := fun k hk => startOf_sub s hi startDeps k hk
+  have hclosed : ∀ u ∈ s.defs.map (·.id), ∀ w ∈ gOf s.idx u, w ∈ s.defs.map (·.id) :=
+    fun u _ w hw => gOf_closed s hi u w hw
+  unfold findTaskids
+  exact ⟨Dfs3.toposort_nodup (gOf s.idx) _ _ _ hfuel hstart hclosed hac,
+         Dfs3.toposort_mem_iff (gOf s.idx) _ _ _ hfuel hstart hclosed hac,
+         Dfs3.toposort_before (gOf s.idx) _ _ _ hfuel hstart hclosed hac⟩
 
 end Manager
